@@ -62,7 +62,7 @@ From Thunder Require Import Lib.Json Federation.Merge Federation.Normalize Feder
   Federation.NormalizeProofs Federation.PlannerProofs Federation.ExecutorProofs Federation.FedWitness
   Federation.FedBase Federation.FedSem Federation.FedPlanSem Federation.Premises Federation.NormSem
   Federation.Transparency Federation.PlannerTotal Federation.Check06
-  Federation.StitchProofs Federation.Refresh Federation.RefreshProofs Federation.MergeProofsKeys Federation.Compose.
+  Federation.StitchProofs Federation.Refresh Federation.RefreshProofs Federation.MergeProofsKeys Federation.Compose Federation.RefreshPoll.
 Import ListNotations.
 Open Scope string_scope.
 
@@ -555,3 +555,29 @@ Example accepted_federation_nonvacuous :
     g_fkeys (gschema_of cw_per m) = [("A", "s1", ["id"]); ("A", "s2", ["id"])] /\
     fed_ok (gschema_of cw_per m) = true.
 Proof. exact Compose.compose_witness. Qed.
+
+(* ---------------------------------------------------------------------------------------------------------- *)
+(** PERIODIC REFRESHES (Federation/RefreshPoll.v): the poller as a transition system -- deployments, a fetch reads
+    the schema deployed when it starts and installs it when it completes.  The code as it is fetches and installs
+    inside one loop iteration (a fetch starts only when none is pending): along every label list the installed
+    planner never goes back to an older schema.  The harness runs the poller's own loop against a SchemaSyncer
+    whose slow fetch is held until a later one has completed and then asks for the newly deployed field. *)
+Theorem installed_planner_never_older :
+  forall ls s s', pinv s -> prun false s ls = Some s' -> pinv s' /\ ps_installed s <= ps_installed s'.
+Proof. exact RefreshPoll.installed_never_older. Qed.
+Print Assumptions installed_planner_never_older.
+
+(** ... which a poller that starts every tick's fetch in its own goroutine violates. *)
+Theorem concurrent_poller_refuted :
+  let tr := [PFetchStart; PDeploy; PFetchStart; PInstall 1; PInstall 0] in
+  installs true pinit tr = [2; 1] /\
+  option_map ps_installed (prun true pinit tr) = Some 1 /\
+  prun false pinit tr = None.
+Proof. exact RefreshPoll.concurrent_poller_refuted. Qed.
+Print Assumptions concurrent_poller_refuted.
+
+Example sequential_poller_nonvacuous :
+  pinv pinit /\
+  let tr := [PFetchStart; PDeploy; PInstall 0; PFetchStart; PDeploy; PInstall 0; PFetchStart; PInstall 0] in
+  installs false pinit tr = [1; 2; 3] /\ option_map ps_installed (prun false pinit tr) = Some 3.
+Proof. split; [exact RefreshPoll.pinit_inv | exact RefreshPoll.sequential_poller_nonvacuous]. Qed.
